@@ -5,6 +5,7 @@ import CatiiProofs.Append
 import CatiiProofs.Filtered
 import CatiiProofs.SetUpdates
 import CatiiProofs.Update
+import CatiiProofs.Queries
 /-!
 # C06 — index operations track NumPy on the dense array over any history
 
@@ -14,11 +15,12 @@ far are `copy`, `shift_common()` / `shift_common(v)` (identity on the dense arra
 — frequent, rare or absent), `append(other)` (concatenation, for any pair of common values and any
 row counts incl. 0, while the combined rows fit 32 bits), `filtered(mask, n)` (boolean row selection, any
 mask), `update(entries)` (cell assignment by any consistent dictionary of cells, incl. cells set to the
-common value), the three entry-wise set updates (through the verified kernels of C08) and construction from
+common value), the three entry-wise set updates (through the verified kernels of C08), the forced queries `get(key, force=True)` /
+`common_rowids` and construction from
 arrays (C01);
 `history_partial` lifts them to arbitrary finite sequences against a NumPy-side specification
-(`specRun`).  The remaining operations of the property (sliced, slices1d, reindexed, collapsed, column_stack, the
-forced queries) are modelled in `CatiiModel/IIndex.lean` statement by statement and are tied to
+(`specRun`).  The remaining operations of the property (sliced, slices1d, reindexed, collapsed, column_stack,
+`items`/`to_dict(force=True)`) are modelled in `CatiiModel/IIndex.lean` statement by statement and are tied to
 the real code by the correspondence harness after **every** step of every generated history,
 with the NumPy reference semantics as the oracle on the real code; their refinement lemmas are
 not yet theorems.
@@ -214,6 +216,20 @@ theorem difference_update_entrywise (i : IIndex) (other : List (Key × Rows)) (h
       ∀ k r, Listed res.entries k r ↔ Listed i.entries k r ∧ ¬ Listed other k r := by
   obtain ⟨res, h1, h2, h3, _, _, _, h6⟩ := differenceUpdate_spec i other h.keys h.sorted ho
   exact ⟨res, h1, h2, h3, h6⟩
+
+/-! ### the forced queries -/
+
+/-- `get(key, force=True)` lists exactly the rows where column `key[1:]` of the dense array equals `key[0]`,
+for listed values and for the common value alike -/
+theorem forced_get_is_where (i : IIndex) (h : WF i) (hnd : i.ndim ≤ 2) (k : Key) (hk : k.length = i.ndim)
+    (hhi : k.drop 1 ∈ hiCells (i.shape.drop 1)) (r : Nat) :
+    r ∈ (getKey i k true).getD [] ↔ r < i.nrows ∧ denseAt i r (k.drop 1) = val0 k :=
+  getKey_force i h hnd k hk hhi r
+
+/-- `common_rowids(col)` lists exactly the rows holding the common value in that column -/
+theorem common_rowids_is_where (i : IIndex) (h : WF i) (hi : List Int) (r : Nat) :
+    r ∈ commonRowidsHi i hi ↔ r < i.nrows ∧ denseAt i r hi = i.common :=
+  commonRowids_spec i h hi r
 
 /-! Non-vacuity -/
 example : WF ⟨[([1], [0, 2]), ([2], [1])], 0, [4]⟩ := wf_sound _ (by decide)
